@@ -38,11 +38,11 @@ pub fn execute(prog: &Program, kind: Kind, seed: u64, fail_fast: bool, touch_yie
     let errors: Vec<String> = ctx.as_ref().map(|c| c.errors.lock().map(|e| e.clone()).unwrap_or_default()).unwrap_or_default();
     let nops = ctx.as_ref().map(|c| c.ops.lock().map(|o| o.len()).unwrap_or(0)).unwrap_or(0);
     let (status, detail) = match r {
-        Ok(()) => if errors.is_empty() { ("ok".to_string(), String::new()) } else { ("monitor".to_string(), errors[0].clone()) },
+        Ok(()) => if errors.is_empty() { ("ok".to_string(), String::new()) } else { ("monitor".to_string(), errors.join(" || ")) },
         Err(e) => {
             let msg = if let Some(s) = e.downcast_ref::<String>() { s.clone() } else if let Some(s) = e.downcast_ref::<&str>() { s.to_string() } else { "panic".to_string() };
             let first = msg.lines().next().unwrap_or("").to_string();
-            if !errors.is_empty() { ("monitor".to_string(), errors[0].clone()) }
+            if !errors.is_empty() { ("monitor".to_string(), errors.join(" || ")) }
             else if msg.contains("deadlock") { ("deadlock".to_string(), first) }
             else if msg.contains("exceeded max_steps") || msg.contains("max_steps") { ("steplimit".to_string(), first) }
             else { ("panic".to_string(), first) }
@@ -88,10 +88,10 @@ pub fn execute(prog: &Program, _kind: Kind, seed: u64, _fail_fast: bool, touch_y
     let errors: Vec<String> = ctx.errors.lock().map(|e| e.clone()).unwrap_or_default();
     let nops = ctx.ops.lock().map(|o| o.len()).unwrap_or(0);
     let (status, detail) = match r {
-        Ok(()) => if errors.is_empty() { ("ok".to_string(), String::new()) } else { ("monitor".to_string(), errors[0].clone()) },
+        Ok(()) => if errors.is_empty() { ("ok".to_string(), String::new()) } else { ("monitor".to_string(), errors.join(" || ")) },
         Err(e) => {
             let msg = if let Some(s) = e.downcast_ref::<String>() { s.clone() } else if let Some(s) = e.downcast_ref::<&str>() { s.to_string() } else { "panic".to_string() };
-            if !errors.is_empty() { ("monitor".to_string(), errors[0].clone()) } else { ("panic".to_string(), msg.lines().next().unwrap_or("").to_string()) }
+            if !errors.is_empty() { ("monitor".to_string(), errors.join(" || ")) } else { ("panic".to_string(), msg.lines().next().unwrap_or("").to_string()) }
         }
     };
     let events = desync::verif::take_log();
